@@ -4,7 +4,7 @@
 From Coq Require Import List NArith.
 From Coq.Strings Require Import Byte.
 Import ListNotations.
-From SP Require Import Bytes BaseX Encodings Rand Params Msgpack Crypto Errors Packets Chunker Sign Verify Encrypt Decrypt Signcrypt Armor Streams KeyTrace.
+From SP Require Import Bytes BaseX Encodings Rand Params Msgpack Crypto Errors Packets Chunker Sign Verify Encrypt Decrypt Signcrypt Armor Streams BxStream KeyTrace.
 
 Definition m_byte_to_N := Byte.to_N.
 Definition m_bx_encode := BaseX.encode.
@@ -63,3 +63,6 @@ Definition m_open_events := KeyTrace.open_events.
 Definition m_sc_open_events := KeyTrace.sc_open_events.
 Definition m_sign_attached_events := KeyTrace.sign_attached_events.
 Definition m_sign_detached_events := KeyTrace.sign_detached_events.
+
+(* streaming base-X decoder, call by call *)
+Definition m_bxd_trace (e : encoding) (sizes : list nat) (s : source) : list bd_result := bd_trace e sizes (bd_init s).
